@@ -92,7 +92,7 @@ class PresGen:
         return self.g
 
     def source(self):
-        out = [tsgen.HEADER]
+        out = [tsgen.HEADER, tsgen.emit_aliases(self.g)]
         for it in self.g.items:
             out.append(f"// @item {it.id}")
             out.append(tsgen.emit_item(it))
